@@ -71,6 +71,13 @@ CHECKS = {
         note="Trusted: TLC, Fractions for the random trees. The algebraic identity for all positive reals is checked on the lattice exactly and sampled elsewhere; floating-point associativity is only required to 1e-11 relative.",
         ref="§3 C11",
     ),
+    "C12": dict(
+        level="model_checking",
+        technique="TLA+ spec SphereAlgebra.tla: every conversion as a monomial 2^a 3^b pi^c x^p with rational exponents; composition and differentiation on exponent vectors; identities model-checked by TLC (hence for all positive reals); spec->code replay of the enumerated conversion x dimension x variant x decade space against 50-digit evaluations",
+        text="TLC checks RoundTripVolume, RoundTripSurface, SurfaceIsDerivative, Degrees, VolumeIsPower as equalities of exponent vectors for d = 1, 2, 3 and enumerates every (conversion, dimension, variant in {function, array, compiled(dim), nd_compiled, droplet}, decade) configuration. For each, the real variant is evaluated at seven mantissas per decade (quick 5 decades, thorough 1e-15..1e15; plus 0, 1e-150, 1e120) and must agree with the mpmath value of the spec's monomial within 16 ulp (plus 2|ln x| ulp for cube roots), arrays of shapes (2,), () and (2,3) must keep their shape, the nd variant is called both interpreted and inside numba.njit, droplet variants through volume / surface_area / interface_curvature / volume setter / from_volume of SphericalDroplet and DiffuseDroplet. Random radii 1e-6..1e6: round trips, numerical derivative of the volume, volume setter, bounding box, curvature.",
+        note="Trusted: TLC, mpmath. The symbolic identities are exact; floating-point agreement is sampled. Integer-typed arguments to compiled variants are outside the checked domain (int64 overflow for radii > 2e6 in 3-D was observed, see DESIGN).",
+        ref="§3 C12",
+    ),
     "C14": dict(
         level="model_checking",
         technique="TLA+ spec Tracker.tla (Handle per interrupt for DropletTracker, LengthScaleTracker and the storage; Finalize writes keyed datasets; offline analysis as a function of the storage) model-checked by TLC over histories x settings x sources x methods; spec->code replay through real trackers with the analysis call arguments logged, plus real solver runs",
@@ -84,6 +91,13 @@ CHECKS = {
         text="TLC checks TypeOK, OrderPreserved, PrefixAlways, Deterministic, OnceEach, OutGrows and Termination for N<=6 tasks on W<=4 workers with sets of None results, over every interleaving. Each complete schedule (completion order) found by TLC is forced in a real process pool by gating task completion on marker files; locate_droplets(refine=True, num_processes=W|'auto') on fields with N droplets (plain, diffuse, perturbed candidates, periodic/non-periodic, a droplet cut by the boundary, forced None results) and EmulsionTimeCourse.from_storage(num_processes=W, progress=None|True|False, refine on/off) on N distinct frames must return results bit-identical (data bytes, dtype, class, order, times) to the serial run; serial runs are repeated and must be identical. The recorded start/end logs are accepted by TraceParallel.tla only if they are behaviours of the spec and the caller's output is the spec's.",
         note="Trusted: TLC, fork start method (wrappers inherited by workers), FIFO call queue of the executor. Runs whose recorded completion order is not the intended one are not judged (count in evidence). Exhaustive in schedules for the stated (N, W); inputs are a fixed family of scenarios.",
         ref="§3 C15",
+    ),
+    "C16": dict(
+        level="model_checking",
+        technique="TLA+ spec Spectrum.tla: exact DFT over Gaussian integers for axis lengths 1, 2, 4; power spectrum as exact rationals; Parseval and invariance laws model-checked by TLC for every integer field; spec->code replay in the implementation's flat order; transformation-word exploration on random fields",
+        text="TLC computes |F_k|^2 exactly for every integer field over {-1,0,1,2} on 4 and 2x2 cells and over smaller alphabets on 4x2, 2x4 (thorough: 4x4, 2x2x2, 2x4x1, 2x2x4) and checks NonNegative, Parseval, ZeroMode, ScaleInvariant, RollInvariant (every shift), ReflectInvariant, Hermitian. Every field is passed to get_structure_factor(smoothing=None) on periodic CartesianGrids with dyadic anisotropic spacings and offsets: S and the wave numbers must equal |F_k|^2/(N sum f^2) and 2 pi |n/(N dx)| in flat C order with the zero mode dropped (1e-13), add_zero must prepend exactly (0, 1). 320 (thorough 16000) random float fields on shapes with odd and even sizes (1-D..3-D): DFT definition, Parseval, exact wave numbers, invariance under scaling, rolling, reflection, axis permutation with the grid, inverse scaling of k with the physical size; the smoothed variant must return the requested wave numbers identically, stay finite, prepend (0, 1) and share the invariances.",
+        note="Trusted: TLC; numpy.fft as the definition of the DFT for sizes other than 1, 2, 4. Exact arithmetic only for those sizes.",
+        ref="§3 C16",
     ),
     "C18": dict(
         level="model_checking",
